@@ -1,12 +1,15 @@
 //! vmain — drivers for the checks that run against /repo/a2lfile as shipped.
 //! usage: vmain <PROPERTY> <quick|thorough>   |   vmain replay <file>
 
+mod c12;
 mod c13;
+mod util;
 
 use vcore::report::Run;
 
 fn run_property(id: &str, tier: &str) -> Option<Run> {
     Some(match id {
+        "C12" => c12::run(tier),
         "C13" => c13::run(tier),
         _ => return None,
     })
@@ -24,6 +27,7 @@ fn main() {
         let v: serde_json::Value = serde_json::from_str(&txt).expect("replay file is not json");
         let prop = v["property"].as_str().unwrap_or("").to_string();
         let res = match prop.as_str() {
+            "C12" => c12::replay(&v["replay"]),
             "C13" => c13::replay(&v["replay"]),
             _ => Err(format!("no replay for property {prop}")),
         };
